@@ -73,6 +73,10 @@ func targets(w *world.World) []target {
 	ids := identities(w)
 	drain := func(r io.Reader, err error) error {
 		if err != nil {
+			if r != nil {
+				// (a nil pointer wrapped in the interface counts: the caller sees a reader, and using it crashes)
+				return fmt.Errorf("PARTIAL: Decrypt failed (%v) and still returned a payload reader (%T)", err, r)
+			}
 			return err
 		}
 		_, err = io.Copy(io.Discard, r)
@@ -300,9 +304,10 @@ func scryptWorkPerCall(run *vk.Run) {
 	x := &age.Stanza{Type: "X25519", Args: []string{"TEiF0ypqr+bpvcqXNyCVJpL7OuwPdVwPL7KQEbFDOCc"}, Body: make([]byte, 32)}
 	for _, max := range []int{6, 10} {
 		for _, layout := range [][]*age.Stanza{{mk(max), mk(max)}, {mk(max), mk(max), mk(max), mk(max)}, {mk(1), mk(max), mk(max - 1)}, {x, mk(max), mk(max)}, {mk(max), x, mk(max)},
-			{mk(max), mk(max), mk(max), mk(max), mk(max), mk(max), mk(max), mk(max), mk(max), mk(max), mk(max), mk(max), mk(max), mk(max), mk(max), mk(max)}} {
-			for _, via := range []string{"Unwrap", "Decrypt"} {
-				id, err := age.NewScryptIdentity("not the passphrase of any of them")
+			{mk(max)}, {mk(max), mk(max), mk(max), mk(max), mk(max), mk(max), mk(max), mk(max), mk(max), mk(max), mk(max), mk(max), mk(max), mk(max), mk(max), mk(max)}} {
+			for vi, via := range []string{"Unwrap", "Decrypt", "Unwrap", "Decrypt"} {
+				// the identity's passphrase is wrong for every stanza; a trailing line terminator must not buy a second try
+				id, err := age.NewScryptIdentity([]string{"not the passphrase of any of them", "not the passphrase of any of them", "typed with its newline\n", "pasted from a file\r\n"}[vi])
 				if err != nil {
 					vk.Infra("%v", err)
 				}
@@ -333,7 +338,7 @@ func scryptWorkPerCall(run *vk.Run) {
 				mu.Lock()
 				wk := work
 				mu.Unlock()
-				sig := fmt.Sprintf("stanzas=%d/max=%d/%s", len(layout), max, via)
+				sig := fmt.Sprintf("stanzas=%d/max=%d/%s/pw%d", len(layout), max, via, vi/2)
 				if wk > 1<<uint(max) {
 					run.Violation("C14:work-above-maximum:per-call:"+sig, fmt.Sprintf("one %s call on %d stanzas with maximum work factor %d did scrypt work %d (= %.1f x 2^%d)", via, len(layout), max, wk, float64(wk)/float64(int(1)<<uint(max)), max), map[string]interface{}{"check": "C14.workpercall", "stanzas": len(layout), "max": max, "via": via})
 				}
@@ -425,6 +430,28 @@ func Run(tier string) {
 				b[len(b)-1] = byte(c)
 				inputs = append(inputs, input{fmt.Sprintf("keystring-char:%d", ci), b}, input{fmt.Sprintf("keystring-char:%d", ci), append([]byte(s), byte(c))})
 			}
+		}
+	}
+	// files the identities of this run CAN open, cut at every offset from the end of the header to past the payload nonce
+	// (and with the nonce region damaged): failures that come after a successful unwrap and MAC check
+	{
+		var buf bytes.Buffer
+		wc, err := age.Encrypt(&buf, w.XIdentity("x1").Recipient())
+		if err != nil {
+			vk.Infra("%v", err)
+		}
+		wc.Write([]byte("plaintext of a file this run can open"))
+		wc.Close()
+		file := buf.Bytes()
+		hdrEnd := bytes.Index(file, []byte("\n--- ")) + 1
+		hdrEnd += bytes.IndexByte(file[hdrEnd:], '\n') + 1
+		for cut := hdrEnd - 3; cut <= hdrEnd+40 && cut <= len(file); cut++ {
+			inputs = append(inputs, input{"own-file-cut", append([]byte{}, file[:cut]...)})
+			var ab bytes.Buffer
+			aw := armor.NewWriter(&ab)
+			aw.Write(file[:cut])
+			aw.Close()
+			inputs = append(inputs, input{"own-file-cut-armored", ab.Bytes()})
 		}
 	}
 	tg := targets(w)
